@@ -235,7 +235,7 @@ func TestC15Rapid(t *testing.T) {
 		if rapid.IntRange(0, 4).Draw(rt, "soup") == 0 {
 			text, kind = Soup(rt, 10), "gen:soup"
 		} else {
-			ast = g.WildExpr(3, xgen.WildOpts{Vars: true, AnyArity: true, NSAxis: true})
+			ast = g.WildExpr(3, xgen.WildOpts{Vars: true, AnyArity: true, NSAxis: true, Regex: true})
 			text, kind = xast.Render(ast), "gen:wild"
 		}
 		l := &harness.Live{Property: "C15", Check: "C15/no-runtime-error", Doc: doc, Ctx: ctx, Expr: text, AST: ast, Flavour: flavourOf(rt)}
